@@ -122,7 +122,7 @@ def writer_map(prog, f, S, fmt, field, width):
     for b, i, x, line in cfg.all_elems():
         for n in walk(x):
             if n.get("k") == "mem" and n["f"] == field:
-                flv.add(lv(n))
+                flv.add(lv(f.expand(n)))
     if not flv:
         raise AnalysisBroken("%s prints %s but never reads the field %s" % (f.name, fmt.split(":")[0], field))
     conv = re.search(r"%[0-9]*([douxi])", fmt.split(":", 1)[1])
